@@ -47,6 +47,11 @@ HASK = ArrK("KeySet", z3.ArraySort(Key.sort(), z3.BoolSort()))
 VALK = ArrK("KeyVals", z3.ArraySort(Key.sort(), Val.sort()))
 
 
+from pyvc.values import ExcClass  # noqa: E402
+
+ANY_LOAD_ERROR = ExcClass("SomeOtherLoadError", bases=(BUILTIN_EXC["Exception"],))
+
+
 def _Fn(fn):
     return Opaque("fn", None, fn=fn)
 
@@ -143,7 +148,10 @@ def build():
         if ctx.branch(z3.Select(g["HAS"].term, k), "load:present"):
             # a complete file unpickles to its value; the load may still fail (file removed meanwhile, damaged media, ...)
             if ctx.choose(2, "load:fails") == 1:
-                which = ctx.choose(3, "load:exc")
+                which = ctx.choose(4, "load:exc")
+                if which == 3:
+                    # any other Exception subclass (struct.error, UnpicklingError, AttributeError of a moved class, ...)
+                    raise PyRaise(SExc(ANY_LOAD_ERROR, ()))
                 raise PyRaise(SExc(BUILTIN_EXC[("ValueError", "OSError", "EOFError")[which]], ()))
             return Sym(Val, z3.Select(g["VAL"].term, k))
         interp.raise_("KeyError")
@@ -469,7 +477,7 @@ def build():
         params=dict(self=ObjOf("MemorizedResult", store_backend=store(), _call_id=callid, timestamp=None, metadata=PyDict({}), verbose=INT)),
         requires=["SI()"],
         ensures={"loads_exactly_that_entry": "result is val(KEY) and has(KEY)"},
-        exsures={"KeyError": {}, "OSError": {}, "EOFError": {}},
+        exsures={"KeyError": {}, "OSError": {}, "EOFError": {}, "Exception": {}},
     ))
 
     # ------------------------------------------------------------------ expires_after callback: total on every metadata dict
